@@ -702,7 +702,7 @@ impl Scenario for Events {
                                 }
                             }
                             let matching = asked.iter().find(|a| {
-                                a.recorder == rec_id && a.key == k && a.mods == live && a.map == mode && r == Some(a.answer)
+                                a.recorder == rec_id && a.key == k && mods_eq9(&a.mods, &live) && a.map == mode && r == Some(a.answer)
                             });
                             let ok = real_layouts || matching.is_some() || (lenient_key(k) && r == Some(DecodedKey::RawKey(k)));
                             if !ok {
